@@ -197,6 +197,7 @@ def disabled_sessions(ctx: Ctx):
     ctx.coverage["oracle"]["disabled_sessions"] = len(confs)
     from .. import xfailfam
     xfailfam.check(ctx, "C06")
+    xfailfam.check_disabled(ctx, "C06")
     # constructor calls (dataclass / namedtuple / attrs, positional and keyword arguments) without flags: transparent, and Model/CallAssign.v
     from .. import callassign as ca
     ca.check_part(ctx, 200 if not ctx.thorough else 2500, "C06", positional=False, noflags=True)
@@ -327,7 +328,7 @@ def run(ctx: Ctx):
 
 def replay(ctx: Ctx, data):
     case = data["case"]
-    if case.get("kind") == "xfail":
+    if case.get("kind") in ("xfail", "xfail-disabled"):
         from .. import xfailfam
         return xfailfam.replay(case, "C06")
     if case.get("kind") == "call":
